@@ -190,6 +190,124 @@ pub fn program_shape(p: &crate::jxlgen::Program) -> String {
 }
 
 /// A valid stream: generated program (bare or wrapped in a container) or, rarely, the real fixture.
+impl StreamCase {
+    /// Violation classes on streams using reach-only features carry a suffix, so that a finding
+    /// specific to VarDCT / patches / splines does not mask one on plain Modular streams.
+    pub fn tag(&self, class: String) -> String {
+        if class.starts_with("panic:") {
+            return class;
+        }
+        let mut class = class;
+        if self.has_vardct {
+            class.push_str("+vardct");
+        }
+        let has = |key: &str| {
+            self.program
+                .as_ref()
+                .and_then(|p| p.get("frames"))
+                .and_then(|f| f.as_array())
+                .map(|fs| fs.iter().any(|f| f.get(key).map(|v| !v.is_null()).unwrap_or(false)))
+                .unwrap_or(false)
+        };
+        if has("patches") {
+            class.push_str("+patches");
+        }
+        if has("splines") {
+            class.push_str("+splines");
+        }
+        class
+    }
+}
+
+/// A bare-codestream case for `prog` (no container).
+pub fn bare_case(prog: &crate::jxlgen::Program) -> Option<StreamCase> {
+    let (bytes, map) = prog.encode().ok()?;
+    Some(StreamCase {
+        structural: map.structural_offsets(),
+        headers: vec![],
+        container: false,
+        aux_after_codestream: false,
+        brob_after_codestream: false,
+        shape: program_shape(prog),
+        source: "jxlgen(minimised)".into(),
+        has_vardct: prog.frames.iter().any(|f| f.vardct.is_some()),
+        program: serde_json::to_value(prog).ok(),
+        bytes,
+    })
+}
+
+/// Program-level shrinking shared by the minimisers: drop the container, then switch features off
+/// one at a time (patches, splines, noise, filters, TOC permutation, passes, preview, colour
+/// encoding, transforms, trailing frames) while `still` holds. Every candidate is re-encoded; a
+/// candidate the writer cannot represent is skipped.
+pub fn shrink_case(case: &StreamCase, still: &dyn Fn(&StreamCase) -> bool) -> StreamCase {
+    use crate::jxlgen::*;
+    let Some(pv) = &case.program else { return case.clone() };
+    let Ok(mut prog) = serde_json::from_value::<Program>(pv.clone()) else { return case.clone() };
+    prog.rebuild();
+    let mut best = case.clone();
+    if case.container {
+        match bare_case(&prog) {
+            Some(c) if still(&c) => best = c,
+            _ => return best, // the container matters (or the program no longer encodes): keep as is
+        }
+    }
+    type Edit = Box<dyn Fn(&mut Program) -> bool>;
+    let mut edits: Vec<Edit> = Vec::new();
+    edits.push(Box::new(|p| {
+        if p.frames.len() < 2 {
+            return false;
+        }
+        p.frames.pop();
+        let last = p.frames.last_mut().unwrap();
+        last.is_last = true;
+        last.save_as_reference = 0;
+        if last.kind == FrameKind::ReferenceOnly {
+            last.kind = FrameKind::Regular;
+        }
+        true
+    }));
+    edits.push(Box::new(|p| p.preview.take().is_some()));
+    edits.push(Box::new(|p| {
+        let d = p.colour != icc::ColourSpec::Default;
+        p.colour = icc::ColourSpec::Default;
+        d
+    }));
+    for fi in 0..8usize {
+        edits.push(Box::new(move |p| p.frames.get_mut(fi).map(|f| f.patches.take().is_some()).unwrap_or(false)));
+        edits.push(Box::new(move |p| p.frames.get_mut(fi).map(|f| f.splines.take().is_some()).unwrap_or(false)));
+        edits.push(Box::new(move |p| p.frames.get_mut(fi).map(|f| f.noise.take().is_some()).unwrap_or(false)));
+        edits.push(Box::new(move |p| p.frames.get_mut(fi).map(|f| f.epf.take().is_some()).unwrap_or(false)));
+        edits.push(Box::new(move |p| {
+            p.frames.get_mut(fi).map(|f| { let d = !matches!(f.gab, GabSpec::Off); f.gab = GabSpec::Off; d }).unwrap_or(false)
+        }));
+        edits.push(Box::new(move |p| p.frames.get_mut(fi).map(|f| std::mem::replace(&mut f.toc_permuted, false)).unwrap_or(false)));
+        edits.push(Box::new(move |p| {
+            p.frames.get_mut(fi).map(|f| { let d = !f.modular.transforms.is_empty(); f.modular.transforms.clear(); d }).unwrap_or(false)
+        }));
+        edits.push(Box::new(move |p| p.frames.get_mut(fi).map(|f| f.crop.take().is_some()).unwrap_or(false)));
+    }
+    let mut progress = true;
+    let mut rounds = 0;
+    while progress && rounds < 4 {
+        progress = false;
+        rounds += 1;
+        for e in &edits {
+            let mut cand = prog.clone();
+            if !e(&mut cand) {
+                continue;
+            }
+            let Some(c) = bare_case(&cand) else { continue };
+            if still(&c) {
+                prog = cand;
+                best = c;
+                progress = true;
+            }
+        }
+    }
+    best
+}
+
 pub fn valid_stream(rng: &mut Rng, cfg: &GenConfig, fixture_one_in: u64, container_pct: u64) -> StreamCase {
     if fixture_one_in > 0 && rng.below(fixture_one_in) == 0 {
         if let Ok(bytes) = std::fs::read(FIXTURE) {
